@@ -223,3 +223,123 @@ func gcd(a, b int) int {
 func Unit(t *rapid.T, label string) float64 {
 	return math.Round(rapid.Float64Range(-1, 1).Draw(t, label)*1e6) / 1e6
 }
+
+// SignedZeros returns a copy of the non-decreasing slice vals shifted so that vals[p] becomes -0
+// and vals[p+1..q] become +0 (p < q): two floats that are the same number and differ as bit
+// patterns, which any code that groups, sorts or compares equal values must treat alike. Entries
+// below p have vals[p] subtracted, entries above q have vals[q] subtracted (monotone, never
+// zero for a different number: x-y is non-zero whenever x != y). It returns nil if the shift
+// overflows.
+func SignedZeros(vals []float64, p, q int) []float64 {
+	out := make([]float64, len(vals))
+	for i, v := range vals {
+		switch {
+		case i < p:
+			out[i] = v - vals[p]
+		case i == p:
+			out[i] = math.Copysign(0, -1)
+		case i <= q:
+			out[i] = 0
+		default:
+			out[i] = v - vals[q]
+		}
+		if math.IsInf(out[i], 0) || math.IsNaN(out[i]) {
+			return nil
+		}
+	}
+	return out
+}
+
+// FlattenEqual makes mapped constant wherever vals is (numerically) constant, so that mapped
+// stays a monotone function of vals after SignedZeros.
+func FlattenEqual(vals, mapped []float64) {
+	for i := 1; i < len(vals); i++ {
+		if vals[i] == vals[i-1] {
+			mapped[i] = mapped[i-1]
+		}
+	}
+}
+
+// NearlySortedPerm draws a permutation of 0..n-1 that is the identity (an already sorted
+// sequence) disturbed the way real data are: a few late observations appended behind a sorted
+// bulk (among them, half of the time, the smallest), the same behind a descending bulk, two
+// sorted runs one after the other, a few transpositions, a rotation, reversed blocks. Uniform
+// permutations never look like this (an ascending prefix of 30 has probability 1/30!), and
+// adaptive sorts, merges of "almost sorted" input and insertion-sort fall-backs take their
+// special paths only here.
+func NearlySortedPerm(t *rapid.T, n int, label string) []int {
+	p := make([]int, n)
+	for i := range p {
+		p[i] = i
+	}
+	if n < 2 {
+		return p
+	}
+	kind := rapid.IntRange(0, 5).Draw(t, label+".kind")
+	switch kind {
+	case 0, 1:
+		maxTail := n / 8
+		if maxTail < 1 || rapid.IntRange(0, 3).Draw(t, label+".longTail") == 0 {
+			maxTail = (n + 3) / 4
+		}
+		k := rapid.IntRange(1, maxTail).Draw(t, label+".tail")
+		out := map[int]bool{}
+		if rapid.Bool().Draw(t, label+".takeMin") {
+			out[0] = true
+		}
+		if rapid.IntRange(0, 3).Draw(t, label+".takeMax") == 0 {
+			out[n-1] = true
+		}
+		for tries := 0; len(out) < k && tries < 4*k+8; tries++ {
+			out[rapid.IntRange(0, n-1).Draw(t, label+".pull")] = true
+		}
+		var bulk, tail []int
+		for i := 0; i < n; i++ {
+			if out[i] {
+				tail = append(tail, i)
+			} else {
+				bulk = append(bulk, i)
+			}
+		}
+		if kind == 1 {
+			for i, j := 0, len(bulk)-1; i < j; i, j = i+1, j-1 {
+				bulk[i], bulk[j] = bulk[j], bulk[i]
+			}
+		}
+		if len(tail) > 1 {
+			tail = rapid.Permutation(tail).Draw(t, label+".tailOrder")
+		}
+		return append(bulk, tail...)
+	case 2:
+		var a, b []int
+		for i := 0; i < n; i++ {
+			if rapid.Bool().Draw(t, label+".run") {
+				a = append(a, i)
+			} else {
+				b = append(b, i)
+			}
+		}
+		return append(a, b...)
+	case 3:
+		for k := rapid.IntRange(1, 3).Draw(t, label+".swaps"); k > 0; k-- {
+			i, j := rapid.IntRange(0, n-1).Draw(t, label+".i"), rapid.IntRange(0, n-1).Draw(t, label+".j")
+			p[i], p[j] = p[j], p[i]
+		}
+		return p
+	case 4:
+		r := rapid.IntRange(1, n-1).Draw(t, label+".rot")
+		return append(append([]int{}, p[r:]...), p[:r]...)
+	default:
+		b := rapid.IntRange(2, 9).Draw(t, label+".block")
+		for s := 0; s < n; s += b {
+			e := s + b
+			if e > n {
+				e = n
+			}
+			for i, j := s, e-1; i < j; i, j = i+1, j-1 {
+				p[i], p[j] = p[j], p[i]
+			}
+		}
+		return p
+	}
+}
